@@ -209,6 +209,28 @@ def whole_stock_cases(chk):
                'solvent': 1, 'expect': 'feasible'}
         g.emit(op2, 'solfrom:nanomolar')
         out.append(g)
+    # targets written in per cent (w/v is grams per 100 mL, v/v and w/w plain fractions), from a 10 g / 100 mL stock
+    for i, (conc, total) in enumerate([({'pct': 'w/v', 'v': '0.5'}, q('100', 'm', 'L')), ({'pct': 'w/w', 'v': '2'}, q('50', '', 'g')),
+                                       ({'pct': 'w/v', 'v': '5'}, q('20', 'm', 'L'))]):
+        g = gen.Gen(random.Random(chk.seed * 100003 + 128000 + i), nsubs=9)
+        op = {'op': 'newc', 'out': g.fresh(), 'name': g.name(), 'init': [(4, q('10', '', 'g')), (1, q('90', 'm', 'L'))]}
+        if not g.emit(op, 'percent:stock')['ok']:
+            continue
+        op2 = {'op': 'solfrom', 'src': op['out'], 'solute': 4, 'c': conc, 'q': total, 'name': g.name(), 'osrc': g.fresh(), 'out': g.fresh(),
+               'solvent': 1, 'expect': 'feasible'}
+        g.emit(op2, 'solfrom:percent')
+        out.append(g)
+    # a dilute stock (250 nM) and a per-mass target: nanomoles per kilogram of solution
+    for i, (conc, total) in enumerate([({'v': '50', 'np': 'n', 'nb': 'mol', 'dp': 'k', 'db': 'g'}, q('10', '', 'g')),
+                                       ({'v': '0.1', 'np': 'u', 'nb': 'mol', 'dp': 'k', 'db': 'g'}, q('4', '', 'g'))]):
+        g = gen.Gen(random.Random(chk.seed * 100003 + 129000 + i), nsubs=9)
+        op = {'op': 'newc', 'out': g.fresh(), 'name': g.name(), 'init': [(1, q('100', 'm', 'L')), (5, q('25', 'n', 'mol'))]}
+        if not g.emit(op, 'nanomolar:stock')['ok']:
+            continue
+        op2 = {'op': 'solfrom', 'src': op['out'], 'solute': 5, 'c': conc, 'q': total, 'name': g.name(), 'osrc': g.fresh(), 'out': g.fresh(),
+               'solvent': 1, 'expect': 'feasible'}
+        g.emit(op2, 'nanomolar:per-mass')
+        out.append(g)
     return out
 
 
@@ -218,7 +240,7 @@ def nontrivial(prog, obs):
     for op, o in zip(prog['ops'], obs):
         if op['op'] in ('solfrom', 'solfromc'):
             c = op['c']
-            keys.append((op['op'], c.get('s') or (c['np'] + c['nb'] + '/' + c['dp'] + c['db']), op['q']['b'], o['ok'], op.get('expect')))
+            keys.append((op['op'], c.get('s') or c.get('pct') or (c['np'] + c['nb'] + '/' + c['dp'] + c['db']), op['q']['b'], o['ok'], op.get('expect')))
     return keys
 
 
